@@ -621,6 +621,12 @@ func init() {
 		for i := 0; i < nr; i++ {
 			names := []string{"u", "v", "r*", "r1"}
 			doms := []string{"*", "d1", "d2", "d*", ""}
+			if i%4 == 3 {
+				// domain names that contain bytes a cache key could be joined with: the pairs
+				// ("a", "b,*") and ("a,b", "*") (same for : | / space) must be kept apart
+				sep := []string{",", ":", "|", "/", " "}[(i/4)%5]
+				doms = []string{"*", "a", "a" + sep + "b", "b" + sep + "*", "a" + sep + "*"}
+			}
 			var mf, dmf func(a, b string) bool
 			switch c.Rng.Intn(4) {
 			case 0:
